@@ -509,18 +509,22 @@ fn gen_c20(tier: &str, rng: &mut Rng) -> Vec<Case> {
         let id = cases.len();
         let mut c = mk_case(id, 1, cfg, 80, html.into_bytes(), Some(1), Meta::G { role: "sel", strs, nums: vec![] }, "random");
         c.group = id;
-        SELS.with(|m| m.borrow_mut().insert(id, sels));
+        SELS.with(|m| m.borrow_mut().insert(sels_key(&c), sels));
         cases.push(c);
     }
     cases
 }
+/// key of a case in SELS: its sheet and document (case ids shift when corpus cases are prepended)
+fn sels_key(c: &Case) -> String {
+    format!("{}\u{0}{}", c.spec.cfg.user_css.first().cloned().unwrap_or_default(), String::from_utf8_lossy(&c.spec.html))
+}
 thread_local! {
-    static SELS: std::cell::RefCell<HashMap<usize, Vec<SelAst>>> = std::cell::RefCell::new(HashMap::new());
+    static SELS: std::cell::RefCell<HashMap<String, Vec<SelAst>>> = std::cell::RefCell::new(HashMap::new());
 }
 fn check_c20(cases: &[Case], results: &[Option<RunResult>]) -> Vec<Violation> {
     let mut v = Vec::new();
     for (i, c) in cases.iter().enumerate() {
-        if c.meta.role() != "sel" {
+        if c.meta.role() != "sel" && c.meta.role() != "corpus" {
             continue;
         }
         let r = match &results[i] {
@@ -533,7 +537,10 @@ fn check_c20(cases: &[Case], results: &[Option<RunResult>]) -> Vec<Violation> {
             }
             continue;
         }
-        let sels: Vec<SelAst> = if c.slice == "nth_exhaustive" {
+        let sels: Vec<SelAst> = if c.meta.role() == "corpus" {
+            // the corpus replays use the selector ".cb > *" (user sheet ".cb > * { color: #123456; }")
+            vec![SelAst { parts: vec![(' ', vec![Simple::Class("cb".into())]), ('>', vec![Simple::Star])] }]
+        } else if c.slice == "nth_exhaustive" {
             // re-derive from the text: li:nth-child(..) is the only shape
             let st = &c.meta.strs()[1];
             let _ = st;
@@ -554,7 +561,7 @@ fn check_c20(cases: &[Case], results: &[Option<RunResult>]) -> Vec<Violation> {
                 None => continue,
             }
         } else {
-            match SELS.with(|m| m.borrow().get(&c.spec.id).cloned()) {
+            match SELS.with(|m| m.borrow().get(&sels_key(c)).cloned()) {
                 Some(s) => s,
                 None => continue,
             }
@@ -653,7 +660,7 @@ fn check_c20(cases: &[Case], results: &[Option<RunResult>]) -> Vec<Violation> {
             v.push(viol(
                 i,
                 "selector applies to a different set of elements than CSS semantics designate",
-                format!("selector {:?}: token {:?} coloured={}", c.meta.strs()[1], t, coloured),
+                format!("selector {:?}: token {:?} coloured={}", c.meta.strs().get(1).or(c.meta.strs().first()), t, coloured),
                 if tbody_matches && !coloured { Some("tbody_style_dropped") } else { None },
             ));
         }
@@ -1056,7 +1063,7 @@ fn gen_c18(tier: &str, rng: &mut Rng) -> Vec<Case> {
         let base_cfg = Cfg { deco: cfg.deco, ..Default::default() };
         let mut c = mk_case(id, route, cfg, w, html.clone().into_bytes(), Some(route as u64), g("selector_hidden"), "compound_selectors");
         c.group = 8_000_000 + id;
-        SELS.with(|m| m.borrow_mut().insert(id, vec![SelAst { parts: parts.clone() }]));
+        SELS.with(|m| m.borrow_mut().insert(sels_key(&c), vec![SelAst { parts: parts.clone() }]));
         cases.push(c);
         // the same document without the sheet: which tokens are rendered at all
         let mut c = mk_case(id + 1, route, base_cfg, w, html.into_bytes(), Some(route as u64), g("selector_baseline"), "compound_selectors");
@@ -1162,7 +1169,7 @@ fn check_c18_tokens(cases: &[Case], results: &[Option<RunResult>], a: usize, b: 
         (Some(x), Some(y)) => (x, y),
         _ => return,
     };
-    let sels = match SELS.with(|m| m.borrow().get(&cases[a].spec.id).cloned()) {
+    let sels = match SELS.with(|m| m.borrow().get(&sels_key(&cases[a])).cloned()) {
         Some(s) => s,
         None => return,
     };
